@@ -97,12 +97,13 @@ type LenProver struct {
 	visiting map[ssa.Value]bool
 	depth    int
 	memo     map[*ssa.BasicBlock][][]lfact
+	memoVia  map[*ssa.BasicBlock][]int
 	dbg      map[ssa.Value]string
 	stored   map[*types.Var]bool
 }
 
 func NewLenProver(p *Prog, fn *ssa.Function) *LenProver {
-	return &LenProver{p: p, fn: fn, atomVal: map[string]ssa.Value{}, atomLen: map[string]bool{}, names: map[ssa.Value]string{}, alts: map[string][][]lfact{}, visiting: map[ssa.Value]bool{}, memo: map[*ssa.BasicBlock][][]lfact{}}
+	return &LenProver{p: p, fn: fn, atomVal: map[string]ssa.Value{}, atomLen: map[string]bool{}, names: map[ssa.Value]string{}, alts: map[string][][]lfact{}, visiting: map[ssa.Value]bool{}, memo: map[*ssa.BasicBlock][][]lfact{}, memoVia: map[*ssa.BasicBlock][]int{}}
 }
 
 func (lp *LenProver) name(v ssa.Value) string {
@@ -790,13 +791,46 @@ func entails(fs []lfact, goal lin) bool {
 // Returns ok, the facts used and the first failing goal.
 // edgeFacts: condition known on the edge from->to, plus phi equalities of `to` for that edge.
 func (lp *LenProver) edgeFacts(from, to *ssa.BasicBlock, predIdx int) []lfact {
-	var out []lfact
+	fs, _ := lp.edgeFactsVia(from, to, predIdx, -1)
+	return fs
+}
+
+// edgeFactsVia: like edgeFacts; `via` is the index of the predecessor through which the path entered
+// `from` (-1 unknown). A branch condition that is a boolean phi of `from` (a && / || evaluated as a
+// value, e.g. in a switch case) is resolved through that predecessor; feasible=false when the resolved
+// constant contradicts the branch taken.
+func (lp *LenProver) edgeFactsVia(from, to *ssa.BasicBlock, predIdx int, via int) (out []lfact, feasible bool) {
+	feasible = true
 	if len(from.Instrs) > 0 {
 		if iff, ok := from.Instrs[len(from.Instrs)-1].(*ssa.If); ok && len(from.Succs) == 2 && from.Succs[0] != from.Succs[1] {
-			if from.Succs[0] == to {
-				out = append(out, lp.condFacts(iff.Cond, true)...)
-			} else if from.Succs[1] == to {
-				out = append(out, lp.condFacts(iff.Cond, false)...)
+			truth := from.Succs[0] == to
+			if truth || from.Succs[1] == to {
+				cond := iff.Cond
+				neg := false
+				for {
+					if u, isU := cond.(*ssa.UnOp); isU && u.Op == token.NOT {
+						cond, neg = u.X, !neg
+						continue
+					}
+					break
+				}
+				if phi, isPhi := cond.(*ssa.Phi); isPhi && phi.Block() == from {
+					if via >= 0 && via < len(phi.Edges) {
+						cond = phi.Edges[via]
+					} else {
+						cond = nil
+					}
+				}
+				want := truth != neg
+				switch c := cond.(type) {
+				case nil:
+				case *ssa.Const:
+					if c.Value != nil && c.Value.Kind() == constant.Bool && constant.BoolVal(c.Value) != want {
+						feasible = false
+					}
+				default:
+					out = append(out, lp.condFacts(cond, want)...)
+				}
 			}
 		}
 	}
@@ -816,7 +850,7 @@ func (lp *LenProver) edgeFacts(from, to *ssa.BasicBlock, predIdx int) []lfact {
 			out = append(out, lfact{lp.lenTerm(phi).add(lp.lenTerm(e), -1), "eq"})
 		}
 	}
-	return out
+	return out, feasible
 }
 
 func isLenType(t types.Type) bool {
@@ -844,13 +878,23 @@ func (lp *LenProver) pathFacts(b *ssa.BasicBlock) [][]lfact {
 		return r
 	}
 	var out [][]lfact
+	var vias []int
 	seen := map[string]bool{}
 	for i, pr := range b.Preds {
 		if b.Dominates(pr) {
 			continue // back edge: facts about values defined outside the loop still hold; inside values are new
 		}
-		ef := lp.edgeFacts(pr, b, i)
-		for _, d := range lp.pathFacts(pr) {
+		prPaths := lp.pathFacts(pr)
+		prVia := lp.memoVia[pr]
+		for di, d := range prPaths {
+			via := -1
+			if di < len(prVia) {
+				via = prVia[di]
+			}
+			ef, feasible := lp.edgeFactsVia(pr, b, i, via)
+			if !feasible {
+				continue
+			}
 			nd := append(lp.applyStores(append([]lfact{}, d...), pr, nil), ef...)
 			var ks []string
 			for _, f := range nd {
@@ -858,9 +902,11 @@ func (lp *LenProver) pathFacts(b *ssa.BasicBlock) [][]lfact {
 			}
 			sort.Strings(ks)
 			k := strings.Join(ks, ";")
+			k = fmt.Sprintf("%d|%s", i, k)
 			if !seen[k] {
 				seen[k] = true
 				out = append(out, nd)
+				vias = append(vias, i)
 			}
 		}
 	}
@@ -885,8 +931,10 @@ func (lp *LenProver) pathFacts(b *ssa.BasicBlock) [][]lfact {
 			}
 		}
 		out = [][]lfact{common}
+		vias = []int{-1}
 	}
 	lp.memo[b] = out
+	lp.memoVia[b] = vias
 	return out
 }
 
@@ -1150,7 +1198,21 @@ func (lp *LenProver) trackedCell(a *ssa.Alloc) bool {
 			switch x := r.(type) {
 			case *ssa.Store, *ssa.UnOp, *ssa.DebugRef:
 			case *ssa.MakeClosure:
-				return false
+				// captured: still trackable when no closure ever stores to it (read-only capture, and the
+				// closure is not a goroutine body — checked by the absence of stores)
+				if cf, ok := x.Fn.(*ssa.Function); ok {
+					stores := false
+					allInstrs(cf, true, func(ins ssa.Instruction) {
+						if st, ok := ins.(*ssa.Store); ok && resolveCell(st.Addr) == ssa.Value(a) {
+							stores = true
+						}
+					})
+					if stores {
+						return false
+					}
+				} else {
+					return false
+				}
 			default:
 				_ = x
 				return false
